@@ -51,7 +51,9 @@ RULE = ('stacks of n <= 8 planes (<= 12 thorough) from integer ranks x spacing a
         '(np.unique order != normal order), planes at equal distance, hints that '
         'match / mismatch / are negative / zero, sort on and off, enforce_handedness, each guard violated in the '
         'malformed stream; series of single-frame CT datasets and enhanced multi-frame CT datasets built from the '
-        'same stacks. non-trivial = more than one distinct plane and the spec decides the case (not within 1e-6 of '
+        'same stacks, every instance / frame with its own dyadic RescaleSlope/Intercept and distinct stored pixels, '
+        'apply_modality_transform default/True/False, the whole assembled array compared with the ground truth '
+        'stored_k*slope_k+intercept_k at the sorted index. non-trivial = more than one distinct plane and the spec decides the case (not within 1e-6 of '
         'a threshold); distinct by case hash')
 EXHAUSTIVE = {'quick': False, 'thorough': False}
 
@@ -141,6 +143,30 @@ def _mk(rng, kind, ranks, rc=None, cc=None, jit=None, lat=None, s=None, opts=Non
     return {'kind': kind, 'rc': _fs(rc), 'cc': _fs(cc), 'conv': conv or rng.choice(CONVS),
             'hand': hand or rng.choice(['R', 'L']), 'pos': pos, 'opts': o,
             'meta': {'k': list(ranks), 's': str(s), 'jit': _fs(jit), 'lat': _fs(lat), 'note': note}}
+
+
+def _stored(fid, rows, cols):
+    return [[10 * fid + r * cols + q for q in range(cols)] for r in range(rows)]
+
+
+def _add_rescale(rng, c):
+    """every instance / frame gets its own dyadic RescaleSlope / RescaleIntercept (PET-like) and distinct
+    stored pixels; apply_modality_transform default / True / False.  The transformed frames are
+    pairwise distinct so that every slice of the assembled array identifies its source."""
+    n = len(c['pos'])
+    if rng.random() < 0.15:
+        c['resc'], c['amt'] = None, rng.choice([None, False])
+        return
+    while True:
+        resc = [[rng.choice([0.25, 0.5, 1.0, 1.5, 2.0, 4.0]), rng.choice([-2.0, 0.0, 0.5, 3.0, 8.0, 100.0])]
+                for _ in range(n)]
+        if rng.random() < 0.1:
+            resc = [resc[0]] * n
+        vals = [tuple(v * sl + ic for row in _stored(i + 1, c['rows'], c['cols']) for v in row)
+                for i, (sl, ic) in enumerate(resc)]
+        if len(set(vals)) == n:
+            break
+    c['resc'], c['amt'] = resc, rng.choice([None, None, True, False])
 
 
 def _tol(rng):
@@ -379,6 +405,7 @@ def gen_cases(rng, tier):
         c['ds_hint'] = float(s) if mode == 'hint' else float(2 * s) if mode == 'badhint' else None
         c['orient_break'] = rng.randrange(1, len(ks)) if mode == 'orient' and len(ks) > 1 else None
         c['rows'], c['cols'] = rng.randint(1, 3), rng.randint(1, 3)
+        _add_rescale(rng, c)
         cases.append(c)
     for _ in range(N):
         n = rng.randint(2, 6)
@@ -403,6 +430,7 @@ def gen_cases(rng, tier):
                     lat=lat, s=s, opts=o, conv='DR', hand='R', note=mode)
         c['opts']['hint'] = float(s) if mode == 'hint' else float(2 * s) if mode == 'badhint' else None
         c['rows'], c['cols'] = rng.randint(1, 3), rng.randint(1, 3)
+        _add_rescale(rng, c)
         cases.append(c)
     return cases
 
@@ -437,6 +465,17 @@ def _frame_pixels(fid, rows, cols):
     return (np.arange(rows * cols, dtype=np.int16).reshape(rows, cols) + 10 * fid)
 
 
+def _frame_value(c, fid):
+    """ground truth of one slice: stored * slope + intercept of ITS OWN instance / frame when the
+    modality transform applies, else the stored values"""
+    import numpy as np
+    a = _frame_pixels(fid, c['rows'], c['cols']).astype(np.float64)
+    if c.get('resc') is not None and c.get('amt') is not False:
+        sl, ic = c['resc'][fid - 1]
+        a = a * sl + ic
+    return a
+
+
 def _datasets(c, with_pixels=False):
     """single-frame CT datasets for the planes of the case; identifiers 1..n in input order"""
     import synth
@@ -454,6 +493,9 @@ def _datasets(c, with_pixels=False):
         for kw in ('SpacingBetweenSlices', 'RescaleSlope', 'RescaleIntercept', 'RescaleType'):
             if kw in ds:
                 delattr(ds, kw)
+        if with_pixels and c.get('resc') is not None:
+            ds.RescaleSlope, ds.RescaleIntercept = c['resc'][i]
+            ds.RescaleType = 'HU'
         out.append(ds)
     if c.get('ds_hint') is not None and out:
         out[0].SpacingBetweenSlices = c['ds_hint']
@@ -488,29 +530,35 @@ def _enhanced(c):
     sh.PixelMeasuresSequence = [pm]
     ds.SharedFunctionalGroupsSequence = [sh]
     pf = []
-    for p in c['pos']:
+    for i, p in enumerate(c['pos']):
         it = Dataset()
         pp = Dataset()
         pp.ImagePositionPatient = [float(x) for x in p]
         it.PlanePositionSequence = [pp]
+        if c.get('resc') is not None:
+            pv = Dataset()
+            pv.RescaleSlope, pv.RescaleIntercept = c['resc'][i]
+            pv.RescaleType = 'US'
+            it.PixelValueTransformationSequence = [pv]
         pf.append(it)
     ds.PerFrameFunctionalGroupsSequence = pf
     ds.PixelData = np.stack([_frame_pixels(i + 1, rows, cols) for i in range(len(c['pos']))]).tobytes()
     return ds
 
 
-def _ids_of(arr, rows, cols, n):
-    """identifier of every slice of an assembled array (0 = empty, -1 = not a frame of the input)"""
+def _ids_of(arr, c, n):
+    """identifier of every slice of an assembled ARRAY (None = empty slot, -1 = the slice is not the
+    ground truth  stored_k * slope_k + intercept_k  of any input instance / frame)"""
     import numpy as np
     ids = []
     for sl in arr:
-        if not sl.any() and True:
-            # an all-zero slice can only be an empty slot (identifiers start at 1 => first pixel >= 10)
-            ids.append(None)
+        if sl.any():
+            hit = [f for f in range(1, n + 1) if sl.shape == (c['rows'], c['cols']) and
+                   np.array_equal(sl, _frame_value(c, f))]
+            ids.append(hit[0] if len(hit) == 1 else -1)
             continue
-        fid = int(round(float(sl.flat[0]))) // 10
-        ok = 1 <= fid <= n and np.array_equal(sl, _frame_pixels(fid, rows, cols).astype(sl.dtype))
-        ids.append(fid if ok else -1)
+        # an all-zero slice can only be an empty slot (every ground-truth value is > 0)
+        ids.append(None)
     return ids
 
 
@@ -540,8 +588,9 @@ def run_impl(c):
             dss = _datasets(c, with_pixels=True)
 
             def f():
-                v = hd.get_volume_from_series(dss, rtol=c['opts']['rtol'], atol=c['opts']['atol'])
-                ids = _ids_of(v.array, c['rows'], c['cols'], len(dss))
+                v = hd.get_volume_from_series(dss, rtol=c['opts']['rtol'], atol=c['opts']['atol'],
+                                              apply_modality_transform=c.get('amt'))
+                ids = _ids_of(v.array, c, len(dss))
                 return [[-1 if i is None else i for i in ids], float(v.spacing[0]),
                         v.affine[:3, 3].tolist(), v.affine[:3, 0].tolist()]
             return catch(f)
@@ -551,12 +600,13 @@ def run_impl(c):
             def f():
                 im = hd.Image.from_dataset(ds)
                 v = im.get_volume(rtol=c['opts']['rtol'], atol=c['opts']['atol'],
+                                  apply_modality_transform=c.get('amt'),
                                   allow_missing_positions=c['opts']['missing'])
                 g = im.get_volume_geometry(rtol=c['opts']['rtol'], atol=c['opts']['atol'],
                                            allow_missing_positions=c['opts']['missing'])
                 if g is None or not np.array_equal(g.affine, v.affine) or g.spatial_shape != v.spatial_shape:
                     return 'geometry differs from volume'
-                ids = _ids_of(v.array, c['rows'], c['cols'], len(c['pos']))
+                ids = _ids_of(v.array, c, len(c['pos']))
                 return [ids, float(v.spacing[0]), v.affine[:3, 3].tolist(), v.affine[:3, 0].tolist()]
             return catch(f)
         # get_volume_positions kinds
@@ -963,6 +1013,8 @@ def shrink(c):
                  meta=dict(c['meta'], k=c['meta']['k'][:i] + c['meta']['k'][i + 1:],
                            jit=c['meta']['jit'][:i] + c['meta']['jit'][i + 1:],
                            lat=c['meta']['lat'][:i] + c['meta']['lat'][i + 1:]))
+        if d.get('resc') is not None:
+            d['resc'] = c['resc'][:i] + c['resc'][i + 1:]
         if d.get('orient_break') is not None:
             if d['orient_break'] == i:
                 continue
